@@ -19,6 +19,7 @@ PID = 'C09'
 
 META = {
     'level': 'exploration',
+    'fork_batches': True,       # each batch runs in a forked child of the pool worker (bounded memory)
     'runs': {'quick': 6000, 'thorough': 400000},
     'batch': {'quick': 50, 'thorough': 500},
     'wall_cap': {'quick': 900, 'thorough': 3300},
